@@ -222,6 +222,7 @@ cdef class LegacyRecordBatch:
         else:
             key = None
         # Read value
+        self._check_bounds(pos, VALUE_LENGTH)
         read_size = <Py_ssize_t> hton.unpack_int32(&buf[pos])
         pos += VALUE_LENGTH
         if read_size != -1:
